@@ -523,7 +523,12 @@ func VerifyObjectCopyAccess(ctx context.Context, be backend.Backend, copySource 
 	if err := VerifyAccess(ctx, be, opts); err != nil {
 		return err
 	}
-	// Verify source bucket access
+	// Verify source bucket access. The source may name a version
+	// ("bucket/key?versionId=..."): the decision is about the key, with the
+	// suffix left on no policy statement for the key would match
+	if i := strings.LastIndex(copySource, "?versionId="); i != -1 {
+		copySource = copySource[:i]
+	}
 	srcBucket, srcObject, found := strings.Cut(copySource, "/")
 	if !found {
 		return s3err.GetAPIError(s3err.ErrInvalidCopySource)
